@@ -360,6 +360,9 @@ def shard(ctx, acc):
         acc.sample(dict(W.brief_case(case), manglers=case["manglers"]), cap=3)
         if probs:
             acc.violation(probs[0][0], probs[:4], case)
+    if ctx.shard == 0:
+        from vlib import probes as P
+        P.run_fixed_demos(PROP, acc)
     # seek round: name reuse under reordered delivery; failures attributed to K24 by input predicate or reported
     for i in F.indices(ctx, plan["cases"] // 6):
         case = make(ctx.seed, i, flavours, seek=True)
